@@ -236,6 +236,13 @@ func init() {
 				if concurrent && unsafe {
 					continue
 				}
+				if !concurrent {
+					if pr := conc.AbortIsolation(3); pr != "" {
+						c.Violation(PropViolation{Property: "C08", What: "aborting one VM disturbs another VM: " + pr,
+							Input: "strings.Map(func(ch) { for i := 0; i < n; i++ {}; return ch }, s) on several VMs, one aborted (conc.AbortIsolation)", Sig: "C08:abort-leaks-to-other-vm"})
+					}
+					c.Count("abort-isolation-probe")
+				}
 				if leak := conc.PrivacyProbe("strings", concurrent); leak != "" {
 					c.Violation(PropViolation{Property: "C08", What: "a builtin module value is shared between VMs: " + leak,
 						Input: "m := import(\"strings\"); m.verifMark = …  (conc.PrivacyProbe)", Sig: "C08:builtin-module-shared"})
